@@ -169,6 +169,24 @@ def check_text(text, strict, doc, files, labels):
 
                     same(R.observe(via_cls), ec, f"{cls.__name__}(file=open file named {fname!r})", ttext, strict)
                     evals += 1
+            # file objects whose .name is not a str at all: an int (os.fdopen, tempfile.TemporaryFile) or a bytes path
+            # without a simfile suffix - "whatever its name": the format comes from the content
+            p = os.path.join(d, "plain.txt")
+            with open(p, "w", encoding="utf-8", newline="") as f:
+                f.write(text)
+            e = R.ref_load(ttext, strict)
+
+            def via_fd():
+                with os.fdopen(os.open(p, os.O_RDONLY), "r", encoding="utf-8") as f:
+                    return simfile.load(f, strict=strict)
+
+            def via_bytes_path():
+                with open(os.fsencode(p), "r", encoding="utf-8") as f:
+                    return simfile.load(f, strict=strict)
+
+            same(R.observe(via_fd), e, "load(file object from os.fdopen, name is an int)", ttext, strict)
+            same(R.observe(via_bytes_path), e, "load(file opened by a bytes path 'plain.txt')", ttext, strict)
+            evals += 2
             labels.add("file-entry-points")
         finally:
             shutil.rmtree(d, ignore_errors=True)
